@@ -22,10 +22,10 @@ PROP = dict(
                 thorough="J: length <= 6; alphabets A,B,C,E,G: length <= 9 (12.1M each per K); D, F: length <= 6 (1.1M each per K); H: length <= 4; I: length <= 3; K: length <= 7; long sequences 4 x 10^4; ASan pass depth 5"),
     deadline=dict(quick=300, thorough=3300),
     passes=[
-        dict(name="k1", cache_size=1),
-        dict(name="k2", cache_size=2),
-        dict(name="k4", cache_size=4),
-        dict(name="asan", variant="asan", cache_size=2, args=["--asan-pass"], env={"ASAN_OPTIONS": "detect_leaks=0:symbolize=0"}),
+        dict(name="k1", cache_size=1, args=["--configured-k", "1"]),
+        dict(name="k2", cache_size=2, args=["--configured-k", "2"]),
+        dict(name="k4", cache_size=4, args=["--configured-k", "4"]),
+        dict(name="asan", variant="asan", cache_size=2, args=["--asan-pass", "--configured-k", "2"], env={"ASAN_OPTIONS": "detect_leaks=0:symbolize=0"}),
     ],
     assumptions=COMMON_ASSUME + ["a history is replayed from a fresh thread, so per-thread cache state at the start is empty"],
 )
